@@ -36,6 +36,7 @@ def configs(tier, seed):
     n = 3 if q else 4
     out = [dict(name="metrics", h="metrics", E=E_, S=S_, C=3),
            dict(name="metrics-io", h="metrics_io", E=2, S=2),
+           dict(name="metrics on 5000 experiments", h="metrics_large", E=5000),
            dict(name="effects arity2", h="effects", n=n, arity=2),
            dict(name="effects arity3", h="effects", n=2 if q else 3, arity=3),
            dict(name="synergy lenient", h="synergy", n=n, strict=False),
@@ -102,6 +103,44 @@ def h_metrics(ctx, cfg):
     for e in range(E_):
         ctx.prove(ctx.eq(mp[e], _mean(P[e])), "mean prediction = average over posterior samples")
     return chains
+
+
+def h_metrics_large(ctx, cfg):
+    """the metrics on an evaluation with thousands of experiments (sizes past any plausible internal block size): a handful of
+    entries are symbolic, the rest concrete, so the definitions stay small identities"""
+    np = ctx.np
+    mm = ctx.mod("batchie.models.main")
+    E_, S_ = cfg["E"], 2
+    sym_rows = sorted({0, 1, E_ // 2, E_ - 2, E_ - 1})
+    P = [[0.25 + 0.001 * (e % 7), 0.5 - 0.002 * (e % 5)] for e in range(E_)]
+    O = [0.125 * (e % 3) for e in range(E_)]
+    for k, e in enumerate(sym_rows):
+        P[e] = [ctx.real("p%d_%d" % (k, s)) for s in range(S_)]
+        O[e] = ctx.real("o%d" % k)
+    me = mm.ModelEvaluation(predictions=np.array(P, dtype=float), observations=np.array(O, dtype=float),
+                            chain_ids=np.array([0, 1], dtype=int), sample_names=np.array(["x"] * E_, dtype=str))
+    sq = [[(P[e][s] - O[e]) * (P[e][s] - O[e]) for s in range(S_)] for e in range(E_)]
+    total = 0.0
+    for row in sq:
+        for x in row:
+            total = total + x
+    ctx.prove(ctx.eq(me.mse() * (E_ * S_), total), "overall MSE = mean squared error over all (experiment, posterior sample) pairs (%d experiments)" % E_,
+              key="overall MSE wrong on a large evaluation")
+    mp = me.mean_predictions.tolist()
+    ctx.prove(all(ctx.is_true(ctx.eq(mp[e] * S_, P[e][0] + P[e][1])) for e in sym_rows), "mean prediction = average over posterior samples (large evaluation)")
+    per_chain = [sum_(ctx, [sq[e][c] for e in range(E_)]) for c in range(S_)]
+    icv = me.inter_chain_mse_variance()
+    m0, m1 = per_chain[0] / E_, per_chain[1] / E_
+    ctx.prove(ctx.eq(icv * 4, (m0 - m1) * (m0 - m1)), "inter-chain variance = variance of the per-chain MSEs (large evaluation)",
+              key="inter-chain variance wrong on a large evaluation")
+    return E_
+
+
+def sum_(ctx, xs):
+    t = 0.0
+    for x in xs:
+        t = t + x
+    return t
 
 
 def h_metrics_io(ctx, cfg):
@@ -328,5 +367,5 @@ def h_corr(ctx, cfg):
 
 
 def run(ctx, cfg):
-    return {"metrics": h_metrics, "metrics_io": h_metrics_io, "effects": h_effects, "synergy": h_synergy,
+    return {"metrics": h_metrics, "metrics_large": h_metrics_large, "metrics_io": h_metrics_io, "effects": h_effects, "synergy": h_synergy,
             "cmse": h_cmse, "corr": h_corr}[cfg["h"]](ctx, cfg)
